@@ -166,6 +166,71 @@ def r3_writer_value_direction(cx):
     _direction(cx, "R3", "R3/Value.partial_cmp/self-vs-other", f, F.body(f), 9, "creator Value::partial_cmp")
 
 
+def _upvar(cb, op, depth=0):
+    """index of the captured variable a closure-body operand is read from (through copies, borrows and derefs), or None"""
+    pl = op_place(op)
+    if pl is None or depth > 8:
+        return None
+    if pl["l"] == 1:
+        fs = [e["f"] for e in pl.get("p", []) if isinstance(e, dict) and "f" in e]
+        return fs[0] if fs else None
+    ds = cb.defs().get(pl["l"], [])
+    if len(ds) != 1:
+        return None
+    d = ds[0]
+    if d[0] == "call":
+        return _upvar(cb, d[2]["args"][0], depth + 1) if d[2]["args"] else None
+    rv = d[3]["rv"] if d[3]["k"] == "assign" else None
+    if rv is None:
+        return None
+    if rv["k"] in ("use", "cast"):
+        return _upvar(cb, rv["op"], depth + 1)
+    if rv["k"] == "ref":
+        return _upvar(cb, {"cp": rv["pl"]}, depth + 1)
+    return None
+
+
+def _r4_search_form(cx, f, b):
+    """the same comparison written as a search: keys.map(|k| self.value(k).partial_cmp(&other.value(k)) ..).find(is_ne).unwrap_or(Equal)"""
+    F = cx.F
+    mp = b.calls(r"Iterator>::map::<")[0]
+    fd = b.calls(r"Iterator>::(find|find_map)::<")[0]
+
+    def closure_of(op):
+        l = op_base_local(op)
+        for d in b.defs().get(l, []) if l is not None else []:
+            if d[0] == "stmt" and d[3]["k"] == "assign" and d[3]["rv"].get("closure_fn") is not None:
+                return d[3]["rv"], F.fns[d[3]["rv"]["closure_fn"]]
+        return None, None
+    agg, c = closure_of(mp[1]["args"][1])
+    _, pc = closure_of(fd[1]["args"][1])
+    if c is None or "blocks" not in c:
+        raise AnchorLost("FullEntryTrait::compare (search form): the closure given to map")
+    cb = F.body(c)
+    cmps = [(i, t) for i, t in cb.calls(*CMP_CALL) if not cb.is_cleanup(i)]
+    if len(cmps) != 1:
+        raise AnchorLost("FullEntryTrait::compare (search form): %d comparisons in the mapped closure" % len(cmps))
+    ci, ct = cmps[0]
+
+    def side(op):
+        ups = set()
+        for x in cb.origins(op):
+            if x[0] == "call" and call_is(cb.term(x[1]), r"EntryTrait(<.*>)?>::value$|EntryTrait::value$"):
+                u = _upvar(cb, cb.term(x[1])["args"][0])
+                if u is not None and u < len(agg["fields"]):
+                    ups |= {y[1] for y in b.origins(agg["fields"][u]) if y[0] == "param"}
+        return ups
+    ra, rb_ = side(ct["args"][0]), side(ct["args"][1])
+    cx.ob("R4", "R4/compare/self-vs-other", ra == {1} and rb_ == {3}, f, "the value of self is the receiver and the value of other the argument of the comparison (receiver from parameters %s, argument from %s)" % (sorted(ra), sorted(rb_)), ln=ct.get("ln"))
+    back = [callee_str(t).split("::<")[0] for i, t in b.calls(r"Iterator>::rev$|DoubleEndedIterator>::(next_back|rfold|rfind|nth_back)|cmp::Ordering::reverse$|Iterator>::(skip|step_by|take)$") if not b.is_cleanup(i)]
+    chained = ("call", mp[0]) in b.origins(fd[1]["args"][0]) and any(x[0] == "param" and x[1] == 2 for x in b.origins(mp[1]["args"][0]))
+    cx.ob("R4", "R4/compare/keys-front-to-back", not back and chained, f, "the sort keys are mapped to their comparison front to back and searched for the first that decides (%s)" % (back or "no rev / skip / take / reverse"))
+    revc = [1 for i, t in cb.calls(r"Ordering::reverse$|cmp::Reverse") if not cb.is_cleanup(i)]
+    from_cmp = ("call", ci) in cb.origins(0)
+    pred = [callee_str(t).split("::")[-1] for i, t in (F.body(pc).calls(r"cmp::Ordering::is_(eq|ne|lt|gt|le|ge)$") if pc is not None and "blocks" in pc else [])]
+    cx.ob("R4", "R4/compare/sign-kept", from_cmp and not revc and pred == ["is_ne"], f, "the mapped closure answers with the comparison itself and the search stops at the first answer that is not Equal (predicate: %s)" % (pred or "?"))
+
+
 def r4_entry_compare(cx):
     """FullEntryTrait::compare(self, keys, other): keys front to back; self.value(k) against other.value(k); the first key
     that does not answer Equal decides, with its own sign (ties: C02-R13)"""
@@ -177,6 +242,8 @@ def r4_entry_compare(cx):
     b = F.body(f)
     cs = [(i, t) for i, t in b.calls(*CMP_CALL) if not b.is_cleanup(i)]
     vals = b.calls(r"EntryTrait::value$|EntryTrait<.*>>::value$")
+    if not cs and b.calls(r"Iterator>::map::<") and b.calls(r"Iterator>::(find|find_map)::<"):
+        return _r4_search_form(cx, f, b)
     if not cs or len(vals) < 2:
         raise AnchorLost("FullEntryTrait::compare: %d comparisons, %d value() calls" % (len(cs), len(vals)))
     bad = []
@@ -522,7 +589,7 @@ def r6_reader_compare(cx):
     the stored array makes it Greater"""
     F = cx.F
     f = F.one(regex=r"property_compare::PropertyCompare<'_> as reader::directory_pack::range::CompareTrait>::compare_entry$|PropertyCompare.*CompareTrait>::compare_entry$")
-    b = F.body(f)
+    b = F.deep_body(f, only=r"property_compare::", closures=True)
     pc = b.calls(r"RawValue::partial_cmp$")
     if len(pc) != 1:
         raise AnchorLost("PropertyCompare::compare_entry: %d partial_cmp calls" % len(pc))
@@ -530,8 +597,8 @@ def r6_reader_compare(cx):
     ra = b.origins(t["args"][0])
     rb_ = b.origins(t["args"][1])
     stored = any(x[0] == "call" and call_is(b.term(x[1]), r"EntryTrait>::get_value|::get_value") for x in ra)
-    probe = ("field", "values") in rb_ and not any(x[0] == "call" and call_is(b.term(x[1]), r"::get_value") for x in rb_)
-    cx.ob("R6", "R6/compare_entry/stored-vs-probe", stored and probe, f, "entry.get_value(name) is the receiver, the probe value (self.values) the argument", ln=t.get("ln"))
+    probe = ("param", 1) in rb_ and not any(x[0] == "call" and call_is(b.term(x[1]), r"::get_value|create_entry") for x in rb_)
+    cx.ob("R6", "R6/compare_entry/stored-vs-probe", stored and probe, f, "entry.get_value(name) is the receiver, the probe value kept by the comparator the argument", ln=t.get("ln"))
     rev = [tt.get("ln") for x, tt in b.calls(r"Ordering::reverse$|Iterator>::rev$") if not b.is_cleanup(x)]
     bad = []
     for v in (LESS, GREATER):
@@ -543,7 +610,7 @@ def r6_reader_compare(cx):
     g = F.one(regex=r"reader::directory_pack::raw_value::RawValue::partial_cmp$")
     gb = F.body(g)
     cs = [(i, t) for i, t in gb.calls(*CMP_CALL, r"raw_value::Array::cmp$") if not gb.is_cleanup(i)]
-    if len(cs) < 15:
+    if len(cs) < 1:
         raise AnchorLost("RawValue::partial_cmp: %d comparisons" % len(cs))
     bad = []
     for i, t in cs:
@@ -559,33 +626,39 @@ def r6_reader_compare(cx):
     ours = [(i, t) for i, t in hb.calls(r"ArrayIter<'_> as std::iter::Iterator>::next$|ArrayIter.*Iterator>::next$")]
     theirs = [(i, t) for i, t in hb.calls(r"slice::Iter<'_, u8> as std::iter::Iterator>::next$")]
     byte = [(i, t) for i, t in hb.calls(r"impl std::cmp::Ord for u8>::cmp$")]
-    if len(ours) != 1 or len(theirs) != 2 or len(byte) != 1:
-        raise AnchorLost("reader Array::cmp: %d stored-byte reads, %d probe-byte reads, %d byte comparisons (wanted 1, 2, 1)" % (len(ours), len(theirs), len(byte)))
+    if len(ours) != 1 or not (1 <= len(theirs) <= 2) or len(byte) != 1:
+        raise AnchorLost("reader Array::cmp: %d stored-byte reads, %d probe-byte reads, %d byte comparisons (wanted 1, 1 or 2, 1)" % (len(ours), len(theirs), len(byte)))
     oi = ours[0][0]
-    inloop = [x for x, _ in theirs if x in hb.reach_after(x)]
-    after = [x for x, _ in theirs if x not in hb.reach_after(x)]
-    if len(inloop) != 1 or len(after) != 1:
-        raise AnchorLost("reader Array::cmp: the probe is read once per stored byte and once after the last one")
     pan = hb.panic_blocks()
     SOME, NONE = ("agg", 1, (None,)), ("agg", 0, ())
-    def rets(ac):
+    # `next().transpose()?` on the stored side: the Result<Option<u8>> it makes out of the assumed Option
+    tr = [i for i, t in hb.calls(r"Option::<std::result::Result<.*>>::transpose$") if ("call", oi) in hb.origins(t["args"][0], through_calls=False)]
+
+    def rets(mine, yours, extra=None):
+        ac = {oi: mine}
+        for i in tr:
+            ac[i] = ("agg", 0, (mine,))
+        for i, _ in theirs:
+            ac[i] = yours
+        ac.update(extra or {})
         r, _ = hb.explore(assume_calls=ac, avoid=pan | hb.error_blocks())
         return {x for x in _ret_values(hb, r) if x != "Err"}
     bi, bt = byte[0]
     pa = hb.origins(bt["args"][0]); pb = hb.origins(bt["args"][1])
-    dirok = ("call", oi) in pa and ("call", inloop[0]) not in pa and ("call", inloop[0]) in pb and ("call", oi) not in pb
+    tset = {("call", i) for i, _ in theirs}
+    dirok = ("call", oi) in pa and not (tset & pa) and bool(tset & pb) and ("call", oi) not in pb
     cx.ob("R6", "R6/Array.cmp/stored-byte-vs-probe-byte", dirok, h, "each stored byte is the receiver, the probe's byte the argument of the byte comparison", ln=bt.get("ln"))
-    g1 = rets({oi: SOME, inloop[0]: NONE})
+    g1 = rets(SOME, NONE)
     cx.ob("R6", "R6/Array.cmp/probe-exhausted-first-is-greater", g1 == {"Greater"}, h, "stored bytes left, probe exhausted -> Greater (returns %s)" % sorted(map(str, g1)))
-    g2 = rets({oi: NONE, after[0]: SOME})
+    g2 = rets(NONE, SOME)
     cx.ob("R6", "R6/Array.cmp/stored-exhausted-first-is-less", g2 == {"Less"}, h, "stored bytes exhausted, probe has more -> Less (returns %s)" % sorted(map(str, g2)))
-    g3 = rets({oi: NONE, after[0]: NONE})
+    g3 = rets(NONE, NONE)
     cx.ob("R6", "R6/Array.cmp/both-exhausted-is-equal", g3 == {"Equal"}, h, "both exhausted -> Equal (returns %s)" % sorted(map(str, g3)))
     bad = []
     for v in (LESS, GREATER):
-        ac = {oi: SOME, inloop[0]: SOME, bi: ("agg", v, ())}
-        ac.update(_answers(hb, None, v))
-        g4 = rets(ac)
+        extra = {bi: ("agg", v, ())}
+        extra.update(_answers(hb, None, v))
+        g4 = rets(SOME, SOME, extra)
         if not g4 or not all(x == ORD[v] or x == ("call", bi) for x in g4):
             bad.append("%s -> %s" % (ORD[v], sorted(map(str, g4))))
     cx.ob("R6", "R6/Array.cmp/first-different-byte-answers", not bad, h, "a byte that compares Less / Greater is the answer%s" % ("" if not bad else ": " + "; ".join(bad)))
